@@ -20,8 +20,8 @@ RULE = (
     "boundary or length prefix and every 251st in between) x source {BytesIO, non-seekable short-reading raw ending in EOF, the same "
     "raw source and a BufferedReader over it ending in an exception (connection reset)} x {flat, grouped} x "
     "generic (and rdflib flat for RDF 1.1 content). Items are collected until StopIteration or any Exception. Oracle: "
-    "(i) the items are a prefix of the full parse (never a foreign or reordered item; for grouped: sink j == sink j of the "
-    "full parse), (ii) at least the statements of all frames lying entirely inside data[:k] were yielded. "
+    "(i) the items are a prefix of the sequence the stream denotes according to the reference decoder R (never a foreign or "
+    "reordered item; for grouped: sink j == the statements R attributes to frame j), (ii) at least the statements of all frames lying entirely inside data[:k] were yielded. "
     "non-trivial = k strictly inside a frame or its length prefix, or exactly on an interior frame boundary (each class "
     "counted); distinct by (stream hash, k)."
 )
@@ -61,16 +61,12 @@ def body(case, acc):
     for fe in ref.frame_events:
         total += len(fe)
         cum.append(total)
-    full = {}
-    try:
-        full["generic"] = scen.norm_any(pyj.parse_flat(data, "generic"))
-        if rdflib_ok:
-            full["rdflib"] = scen.norm_any(pyj.parse_flat(data, "rdflib"))
-        full_grouped = [scen.norm_any(f) for f in pyj.parse_grouped(data, "generic")]
-    except Exception:  # noqa: BLE001
-        if acc is not None:
-            acc.count("full_stream_unparsable_skipped")
-        return None
+    # the "original statement sequence" is what the stream denotes according to the reference decoder - not what
+    # pyjelly's own full parse returns (a decoder defect would otherwise be on both sides of the comparison)
+    full = {"generic": scen.norm_any(ref.events)}
+    if rdflib_ok:
+        full["rdflib"] = scen.norm_any([e if e[0] == "prefix" else [T.rdflib_canon(t) for t in e] for e in ref.events])
+    full_grouped = [scen.norm_any([e for e in fe if e[0] != "prefix"]) for fe in ref.frame_events]
     only_k = case.get("k")
     sh = case_hash(case["src"]) if acc is not None else None
     if acc is not None and len(acc.extra.setdefault("sample_streams", [])) < 1:
